@@ -19,30 +19,39 @@ use crate::slice_file::SliceFile;
 use std::collections::HashSet;
 
 pub fn parse_files(state: &mut CompilationState, symbols: &HashSet<String>) {
+    let mut has_incomplete_elements = false;
     for file in &mut state.files {
         // Attempt to parse the file.
         let mut diagnostics = Diagnostics::new();
-        parse_file(file, &mut state.ast, &mut diagnostics, symbols.clone());
+        has_incomplete_elements |= !parse_file(file, &mut state.ast, &mut diagnostics, symbols.clone());
 
         // Store any diagnostics that were emitted during parsing.
         state.diagnostics.extend(diagnostics);
     }
+
+    // If a file hit a syntax error, everything that was parsed before the error is in the AST already, but the
+    // definitions (and the module) that those elements belong to were never completed. Nothing may navigate from these
+    // elements to their parents. They can be found under the scoped identifiers of any file's elements (the last
+    // element added with an identifier owns it), so no lint may be resolved against 'allow' attributes in its scope.
+    if has_incomplete_elements {
+        state.diagnostics.clear_scopes();
+    }
 }
 
-fn parse_file(file: &mut SliceFile, ast: &mut Ast, diagnostics: &mut Diagnostics, mut symbols: HashSet<String>) {
+/// Parses a file and stores its contents in the AST. Returns false if the elements it added to the AST are incomplete.
+fn parse_file(
+    file: &mut SliceFile,
+    ast: &mut Ast,
+    diagnostics: &mut Diagnostics,
+    mut symbols: HashSet<String>,
+) -> bool {
     // Pre-process the file's raw text.
     let preprocessor = Preprocessor::new(&file.relative_path, &mut symbols, diagnostics);
-    let Ok(preprocessed_text) = preprocessor.parse_slice_file(file.raw_text.as_str()) else { return };
+    let Ok(preprocessed_text) = preprocessor.parse_slice_file(file.raw_text.as_str()) else { return true };
 
     // Parse the preprocessed text.
     let parser = Parser::new(&file.relative_path, ast, diagnostics);
-    let Ok((attributes, module, definitions)) = parser.parse_slice_file(preprocessed_text) else {
-        // Everything that was parsed before the error is in the AST already, but the definitions (and the module) that
-        // those elements belong to were never completed. Nothing may navigate from these elements to their parents,
-        // so the lints reported for this file must not be resolved against 'allow' attributes in their scope.
-        diagnostics.clear_scopes();
-        return;
-    };
+    let Ok((attributes, module, definitions)) = parser.parse_slice_file(preprocessed_text) else { return false };
 
     // Issue a syntax error if the user had definitions but forgot to declare a module.
     if !definitions.is_empty() && module.is_none() {
@@ -57,4 +66,5 @@ fn parse_file(file: &mut SliceFile, ast: &mut Ast, diagnostics: &mut Diagnostics
     file.module = module.map(|m| ast.add_named_element(m));
     file.attributes = attributes;
     file.contents = definitions;
+    true
 }
